@@ -313,6 +313,9 @@ func runSyncCase(seed int64, thorough bool) (*syncInput, Res) {
 		}
 		// --- diverge -------------------------------------------------------------------------------
 		in.Action = []string{"fetch", "fetch", "push", "push", "pull", "merge"}[r.Intn(6)]
+		if in.ExpTag && r.Intn(3) != 0 {
+			in.Action = "fetch" // a tag outside the fetched refspecs matters to fetches of `main` only
+		}
 		in.Relation = []string{"remote-ahead", "local-ahead", "diverged", "equal", "unrelated"}[r.Intn(5)]
 		revertFirst := false
 		refsLost := false
@@ -415,7 +418,7 @@ func runSyncCase(seed int64, thorough bool) (*syncInput, Res) {
 				}
 				args = append([]string{"fetch", "origin"}, specs...)
 			}
-			if hasDev && r.Intn(4) == 0 {
+			if hasDev && (r.Intn(4) == 0 || (in.ExpTag && r.Intn(3) != 0)) {
 				// only `main` is fetched: the second branch (and a tag on it) stays outside the refspecs
 				in.RefspecForce = r.Intn(2) == 0
 				in.ForcedDsts = nil
